@@ -182,6 +182,10 @@ func c05GenMeta(g *Rng, sp int) c05Meta {
 			switch {
 			case len(used) > 0 && g.Bool(0.2):
 				e.Idx = used[g.Intn(len(used))] // duplicate index
+			case len(used) > 0 && g.Bool(0.1):
+				e.Idx = used[g.Intn(len(used))] + Pick(g, 65536, 65536, -65536) // schema-invalid but parsed: equal to another index only modulo 2^16
+			case g.Bool(0.05):
+				e.Idx = Pick(g, -1, 65535, 65536, 65537)
 			case g.Bool(0.15):
 				e.Idx = g.Intn(6)
 			default:
@@ -372,6 +376,19 @@ func c05GenEdit(g *Rng, st *c05Step, flat []c05ACS, mid int64) []c05Edit {
 				mx = a.Idx + 1
 			}
 		}
+		if len(flat) > 0 && g.Bool(0.4) {
+			// an index no endpoint carries but which equals a registered one modulo 2^16 (or 2^32): indices are compared as numbers, not as machine words
+			have := map[int]bool{}
+			for _, a := range flat {
+				have[a.Idx] = true
+			}
+			base := flat[g.Intn(len(flat))].Idx
+			for _, d := range []int{65536, -65536, 1 << 32, -(1 << 32)} {
+				if !have[base+d] {
+					return strconv.Itoa(base + d)
+				}
+			}
+		}
 		return strconv.Itoa(mx + g.Intn(3))
 	}
 	regLoc := func() string {
@@ -430,7 +447,10 @@ func c05GenEdit(g *Rng, st *c05Step, flat []c05ACS, mid int64) []c05Edit {
 		return []c05Edit{{Op: "issuer", Value: ""}}
 	case 6: // destination / version
 		if g.Bool(0.5) {
-			switch g.PickW(3, 2, 2, 3, 1) {
+			switch g.PickW(3, 2, 2, 3, 1, 3) {
+			case 5:
+				// another endpoint of this very IdP: its logout URL, its metadata URL (the SSO URL alone receives AuthnRequests)
+				return []c05Edit{{Op: "set", Name: "Destination", Value: c05IdPBase[st.Tenant] + Pick(g, "/slo", "/slo", "/metadata", "/login")}}
 			case 0:
 				return []c05Edit{{Op: "set", Name: "Destination", Value: c05SSO[1-st.Tenant]}}
 			case 1:
